@@ -37,4 +37,38 @@ def tables(prop, tier, seed, ctx):
     return res
 
 
-EXTRA = {"tables": tables}
+STRESS_SCENARIOS = {
+    # property -> (quick scenarios, quick seconds for the hammer, thorough scenarios, thorough seconds)
+    "C01": (["late"], 0, ["late", "hammer"], 60),
+    "C02": ([], 0, ["hammer"], 60),
+    "C03": (["askjoin", "hammer"], 6, ["askjoin", "hammer"], 180),
+    "C06": ([], 0, ["hammer"], 60),
+    "C10": (["late"], 0, ["late", "blocking"], 0),
+    "C11": (["ids"], 0, ["ids"], 0),
+    "C17": (["blocking", "late"], 0, ["blocking", "late", "hammer"], 60),
+}
+
+
+def stress(prop, tier, seed, ctx):
+    """real-time / multi-thread scenarios under property oracles (monitor-only; never a step-by-step comparison)"""
+    q, qs, t, ts = STRESS_SCENARIOS.get(prop, ([], 0, [], 0))
+    scen, secs = (t, ts) if tier == "thorough" else (q, qs)
+    res = {"evidence": {}, "violations": [], "broken": []}
+    if not scen:
+        return res
+    ctx["build_harness"]([])
+    rep = os.path.join(ctx["BUILD"], f"stress_{prop}.json")
+    rc, out, err = ctx["sh"]([os.path.join(ctx["HARNESS"], "target", "release", "stress"), "--scenario", ",".join(scen),
+                              "--seconds", str(max(secs, 1)), "--seed", str(seed), "--report", rep], timeout=3600)
+    if rc not in (0, 3):
+        raise ctx["Infra"](f"stress failed rc={rc}:\n" + err[-2000:])
+    r = json.load(open(rep))
+    res["evidence"] = {"scenarios": r["scenarios"], "stats": r["stats"], "violations_all_properties": len(r["violations"])}
+    mine = [v for v in r["violations"] if prop in v["props"].split()]
+    for v in mine[:1]:
+        res["violations"].append(("stress-oracle-failure", f"real code, scenario run: {v['what']}",
+                                  {"failing_input": v, "all": mine[:20], "scenarios": scen, "seed": seed}))
+    return res
+
+
+EXTRA = {"tables": tables, "stress": stress}
